@@ -185,7 +185,8 @@ def lean_check(prop, thorough):
 
 # ------------------------------------------------------------------ harness side (S)+(I)
 OBJ_CLASSES = {'C01': ['Epoch'], 'C02': ['Epoch'], 'C10': ['Epoch'], 'C16': ['Epoch'], 'C19': ['Epoch'],
-               'C03': ['Angle'], 'C04': ['Angle'], 'C12': ['Interpolation', 'Angle'], 'C17': ['CurveFitting']}
+               'C03': ['Angle'], 'C04': ['Angle'], 'C12': ['Interpolation', 'Angle'], 'C17': ['CurveFitting'],
+               'C09': ['Minor', 'Angle', 'Epoch'], 'C18': ['Earth', 'Angle'], 'C11': ['Angle', 'Epoch']}
 
 
 def _shard(args):
